@@ -297,6 +297,15 @@ def load_constructors(reg):
                           "self._scale > 0 and self._k > 0 and implies(self._k >= 10, " + coh("self._dist_gamma") + ")"],
                  modifies=["self.*", "heap.DistGamma._stream", "heap.DistGamma._shape", "heap.DistGamma._scale"], props=C14)
 
+    # DistNormalTrunc.draw is the one sampling algorithm not under contract (erf_inv accuracy guards): bounded stand-in
+    def normaltrunc_sweep(table):
+        from pyvc.ground import run_native
+        res = run_native({"function": "DistNormalTrunc.draw", "obligation": "bounded-sweep-normaltrunc", "property": "C14"})
+        return [("BOUNDED: DistNormalTrunc.draw on 4 parameter sets (bounds near and far in the tails) x scripted streams over the "
+                 "extreme uniforms {0, 5e-324, 1e-300, .25, .5, .75, 1-2^-53}: every draw lies within [lo, hi], none raises",
+                 not res.get("reproduced"), res.get("observed") or res.get("note"))]
+    reg.ground_obligation("BOUNDED stand-in: native sweep of DistNormalTrunc.draw over extreme stream outputs", C14, normaltrunc_sweep)
+
     # NaN is outside every documented domain but passes guards of the form `x <= 0` (a comparison with NaN is false):
     # witness of the known finding, evaluated natively
     def nan_witness(table):
